@@ -126,7 +126,12 @@ func (c *reconnectClient) Connect(ctx context.Context, clientID string, opts ...
 								}
 								// Record the error on the connection it belongs to;
 								// c.Client() may already be the next connection.
-								baseCli.SetErrorOnce(err)
+								baseCli.mu.Lock()
+								if baseCli.connState != StateDisconnected {
+									// Not an error if the connection is being disconnected gracefully.
+									baseCli.SetErrorOnce(err)
+								}
+								baseCli.mu.Unlock()
 								// The client should close the connection if PINGRESP is not returned.
 								// MQTT 3.1.1 spec. 3.1.2.10
 								baseCli.Close()
